@@ -286,8 +286,11 @@ func (c *Classifier) Normalize(in []byte) []byte {
 		buf.WriteString(txt)
 	}
 	for _, t := range doc.Tokens[1:] {
-		// Only write out an EOL token that incremented the line
-		if t.Line == prevLine+1 {
+		// Write a line break for every line the token lies behind the previous one.
+		// That is usually one, the end-of-line token having the number of the line
+		// it ends; a word that was hyphenated over line breaks is followed by a
+		// token that lies several lines further.
+		for l := prevLine; l < t.Line; l++ {
 			buf.WriteString(eol)
 		}
 
